@@ -10,7 +10,7 @@ SIZEKW = {0: "", 8: "BYTE ", 16: "WORD ", 32: "DWORD "}
 
 
 # layout (C12): gaps the grammar permits; canonical values below
-CANON = {"ind": "\t", "sep": "\t", "comma": ", ", "brk": "", "opsp": "", "trail": "", "cmt": "", "own": 0, "blank": 0,
+CANON = {"ind": "\t", "sep": "\t", "comma": ", ", "brk": "", "opsp": "", "trail": "", "cmt": "", "cmtsp": " ", "own": 0, "blank": 0,
          "eol": "\n", "final": 1}
 LAY = dict(CANON)
 
@@ -194,7 +194,7 @@ def program(stmts, eol="\n", layout=None):
                 out.append(lay["ind"] + "; own-line comment, with [brackets] and 'quotes'" + e)
             line = stmt(s) + lay["trail"]
             if lay["cmt"]:
-                line += (" " if not lay["trail"] else "") + lay["cmt"]
+                line += (lay.get("cmtsp", " ") if not lay["trail"] else "") + lay["cmt"]
             last = i == n - 1
             if last and not lay["final"] and s["k"] != "label":
                 out.append(line)
